@@ -266,12 +266,17 @@ func (n *periodicBarrier) Init() {
 }
 
 func (n *periodicBarrier) Stop() {
+	n.stop()
+	n.wg.Wait()
+}
+
+// stop signals the emitter goroutine to stop without waiting for it.
+func (n *periodicBarrier) stop() {
 	select {
 	case <-n.stopC:
 	default:
 		close(n.stopC)
 		n.ticker.Stop()
-		n.wg.Wait()
 	}
 }
 
@@ -295,7 +300,9 @@ func (n *periodicBarrier) Barrier(m edge.BarrierMessage) (edge.Message, error) {
 }
 func (n *periodicBarrier) DeleteGroup(m edge.DeleteGroupMessage) (edge.Message, error) {
 	if m.GroupID() == n.group.ID {
-		n.Stop()
+		// Do not wait for the emitter here: it may be blocked sending into the input edge
+		// that only this goroutine consumes.
+		n.stop()
 	}
 	return m, nil
 }
